@@ -17,6 +17,11 @@ static T any() { return (short) ((__vf_nondet_short() & 0x1f) - 16); }
 #elif TY == 2
 using T = float; using Obs = Observable<float, NearEq>; static bool eq(const T &a, const T &b) { return NearEq{}(a, b); } static int key(const T &v) { int k; __builtin_memcpy(&k, &v, 4); return k; }
 static T any() { return (float) ((__vf_nondet_int() & 0x1f) - 16) * 0.25f; }   /* exactly representable quarters: comparisons with the tolerance are exact */
+#elif TY == 4
+// coarse equality: values in the same bucket of 4 compare equal. Assignment / += inside a bucket must NOT notify, ++ / -- must ALWAYS notify.
+struct BucketEq { bool operator()(const int &a, const int &b) const { return (a >> 2) == (b >> 2); } };
+using T = int; using Obs = Observable<int, BucketEq>; static bool eq(const T &a, const T &b) { return BucketEq{}(a, b); } static int key(const T &v) { return v; }
+static T any() { return (__vf_nondet_int() & 0x3f) - 32; }
 #else
 using T = std::string; using Obs = Observable<std::string>; static bool eq(const T &a, const T &b) { return a == b; }
 static int key(const T &v) { int k = (int) v.size(); for (unsigned i = 0; i < 3; i++) if (i < v.size()) k = k * 31 + (unsigned char) v[i]; return k; }
@@ -40,7 +45,7 @@ static void op(int kind) {
     case MUL: shadow *= x; if (!eq(old, shadow)) expect_all(shadow); *g_o *= x; break;
     case DIV: __vf_assume(x != 0); shadow /= x; if (!eq(old, shadow)) expect_all(shadow); *g_o /= x; break;
 #endif
-#if TY <= 1
+#if TY <= 1 || TY == 4
     case PREINC: ++shadow; expect_all(shadow); { T &r = ++*g_o; __vf_check(&r == &g_o->value(), "prefix ++ returns the stored value"); } break;
     case POSTINC: ++shadow; expect_all(shadow); { T r = (*g_o)++; __vf_check(r == old, "postfix ++ returns the previous value"); } break;
     case PREDEC: --shadow; expect_all(shadow); { T &r = --*g_o; __vf_check(&r == &g_o->value(), "prefix -- returns the stored value"); } break;
@@ -51,9 +56,9 @@ static void op(int kind) {
     default: __vf_assume(0);
   }
   __vf_expect_done();
-  __vf_check(eq(g_o->value(), shadow) && (TY == 2 || key(g_o->value()) == key(shadow)), "value() is the result of the same operator applied to a plain variable");
+  __vf_check(eq(g_o->value(), shadow) && (TY == 2 || TY == 4 || key(g_o->value()) == key(shadow)), "value() is the result of the same operator applied to a plain variable");
   __vf_check(key(**g_o) == key(g_o->value()), "operator* and value() agree");
-  if (TY != 2) for (int k = 0; k < NSUB; k++) if (subscribed[k]) __vf_check(key(recorded[k]) == key(g_o->value()), "with the default equality a recording subscriber holds the current value()");
+  if (TY != 2 && TY != 4) for (int k = 0; k < NSUB; k++) if (subscribed[k]) __vf_check(key(recorded[k]) == key(g_o->value()), "with the default equality a recording subscriber holds the current value()");
 }
 extern "C" void harness(void) {
   T init = any(); shadow = init;
